@@ -188,6 +188,8 @@ class _Quadrature(torch.autograd.Function):
                 # are still the same objects as the objects outside
                 with torch.enable_grad():
                     f = fcn(x, *params)
+                if not f.requires_grad:  # the integrand does not depend on any of the tensors
+                    return tuple(torch.zeros_like(p) for p in tensor_params)
                 dfdts = torch.autograd.grad(f, tensor_params,
                                             grad_outputs=grad_ys,
                                             retain_graph=True,
